@@ -1,7 +1,7 @@
 (* CorrConfig.v — correspondence records for the config engine (C16).
    A case is one configuration together with what the REAL controller.ValidateNodeGroup did with it: the number of
-   problems it returned (accepted = 0 problems).  Depends on the generated rules and the spec only — not on any proof —
-   so that it still evaluates when a changed source breaks c16_sound. *)
+   problems it returned (accepted = 0 problems).  Depends on the hand-written validation model and the spec only (SpecConfig.v) — not on
+   any proof and not on coq/Generated.v — so it evaluates whatever the source looks like. *)
 From Coq Require Import String ZArith List Bool.
 From Esc Require Export SpecConfig.
 Import ListNotations.
@@ -12,8 +12,8 @@ Record config_case := { cc_cfg : cfg; cc_errors : Z }.
 
 Definition cc_accepted (k : config_case) : bool := cc_errors k =? 0.
 
-(* model: the generated rule list evaluated on the configuration: (accepted?, number of problems) *)
-Definition model_C16 (k : config_case) : bool * Z := (gen_validate (cc_cfg k), gen_problems (cc_cfg k)).
+(* model: the hand-written rule list evaluated on the configuration: (accepted?, number of problems) *)
+Definition model_C16 (k : config_case) : bool * Z := (model_validate (cc_cfg k), model_problems (cc_cfg k)).
 Definition obs_C16 (k : config_case) : bool * Z := (cc_accepted k, cc_errors k).
 
 Definition mismatches_C16 (cs : list config_case) : list nat :=
@@ -31,21 +31,21 @@ Definition tags_C16 (cs : list config_case) : list Z :=
     count_occ_b (fun k => negb (cc_accepted k) && safe_b (cc_cfg k)) cs;
     count_occ_b (fun k => negb (cc_accepted k) && negb (safe_b (cc_cfg k))) cs ] ++
   map (fun p => count_occ_b (fun k => mem_id p (unsafe_parts (cc_cfg k))) cs) [1;2;3;4;5;6;7;8;9] ++
-  [ count_occ_b (fun k => gen_problems (cc_cfg k) =? 0) cs;
-    count_occ_b (fun k => gen_problems (cc_cfg k) =? 1) cs;
-    count_occ_b (fun k => gen_problems (cc_cfg k) =? 2) cs;
-    count_occ_b (fun k => 3 <=? gen_problems (cc_cfg k)) cs ].
+  [ count_occ_b (fun k => model_problems (cc_cfg k) =? 0) cs;
+    count_occ_b (fun k => model_problems (cc_cfg k) =? 1) cs;
+    count_occ_b (fun k => model_problems (cc_cfg k) =? 2) cs;
+    count_occ_b (fun k => 3 <=? model_problems (cc_cfg k)) cs ].
 
-(* per generated rule: in how many cases it is false (every rule should be exercised) *)
+(* per rule of the model: in how many cases it is false (every rule should be exercised) *)
 Definition rule_fail_counts_C16 (cs : list config_case) : list Z :=
-  map (fun r => count_occ_b (fun k => negb (r (cc_cfg k))) cs) gen_rules.
+  map (fun r => count_occ_b (fun k => negb (r (cc_cfg k))) cs) model_rules.
 
-(* for reports: model verdict, Go source of the rules the model finds false, observed problem count, failing parts of `safe` *)
+(* for reports: model verdict, what the rules the model finds false stand for, observed problem count, failing parts of `safe` *)
 Fixpoint select_src (bs : list bool) (srcs : list string) : list string :=
   match bs, srcs with
   | b :: bs', s :: srcs' => if b then select_src bs' srcs' else s :: select_src bs' srcs'
   | _, _ => []
   end.
 Definition explain_C16 (k : config_case) : (bool * Z * list string) * (bool * Z) * list Z :=
-  ((gen_validate (cc_cfg k), gen_problems (cc_cfg k), select_src (map (fun r => r (cc_cfg k)) gen_rules) gen_rule_src),
+  ((model_validate (cc_cfg k), model_problems (cc_cfg k), select_src (map (fun r => r (cc_cfg k)) model_rules) model_rule_src),
    obs_C16 k, unsafe_parts (cc_cfg k)).
